@@ -99,3 +99,130 @@ def _alloc_sites(t):
                 rec(y)
     rec(t)
     return out
+
+
+def run_wire(rep, fx, rid):
+    """The last link: what send_message_to_readers is handed goes onto the wire, to every locator of the mode chosen for every reader (mutation round 4: deleting the
+    send_to_locator call left every check and the suite green)."""
+    from rdv.core import term_str
+    rep.rule(rid, 'onto the wire: Writer::send_message_to_readers serialises the (encoded) message it was given under the writer\'s endianness and, for every reader of the '
+                  'iteration, walks the unicast or the multicast locator list - unless the reader has neither kind of UDP locator - and hands every locator of that list with that '
+                  'buffer to UDPSender::send_to_locator, except those a send already went to (already_sent_to.contains(loc) true), which it records after sending')
+    b = fx.find(W + 'send_message_to_readers')
+    rep.analysed(b)
+    og = Origins(b, summaries=False)
+    P = Pos(b)
+    edges = list(switch_edges(b, fx, og))
+    loops = natural_loops(b)
+    bad = []
+    sends = []
+    for bb, t in b.calls():
+        if callee_res(t).endswith('UDPSender::send_to_locator'):
+            buf = og.of_operand(t['args'][1], bb, 'term')
+            loc = og.of_operand(t['args'][2], bb, 'term')
+            okb = term_has(buf, lambda x: x[0] == 'call' and x[1].endswith('write_to_vec_with_ctx') and term_has(x, lambda y: y[0] == 'field' and y[1] == 'endianness'))
+            okl = term_has(loc, lambda x: x[0] == 'variant' and x[1] == 'Some') and term_has(loc, lambda x: x[0] == 'call' and x[1].endswith('::next'))
+            if not okb:
+                bad.append('what is sent is %s, not the serialised message' % term_str(buf)[:50])
+            if okb and okl:
+                sends.append(bb)
+    # the message serialised is the one handed in (or its encoding)
+    ser = [(bb, t) for bb, t in b.calls() if callee_res(t).endswith('write_to_vec_with_ctx')]
+    if not ser or not all(term_has(og.of_operand(t['args'][0], bb, 'term'), lambda x: x == ('param', 3) or (x[0] == 'call' and x[1].endswith('security_encode'))) for bb, t in ser):
+        bad.append('the buffer is not the serialisation of the message handed in')
+    # locator loops
+    loc_loops = []
+    for lp in loops:
+        blocks = lp[1]
+        nxt = [(nb, nt) for nb, nt in b.calls() if nb in blocks and callee_res(nt).endswith('::next') and
+               term_has(og.of_operand(nt['args'][0], nb, 'term'), lambda x: x[0] == 'field' and x[1] in ('unicast_locator_list', 'multicast_locator_list'))]
+        # innermost loop over a locator list: its own next, not the find(..) in the header of the readers loop
+        nxt = [(nb, nt) for nb, nt in nxt if not any(nb in l2[1] and len(l2[1]) < len(blocks) for l2 in loops if l2 is not lp)]
+        if not nxt:
+            continue
+        nb = nxt[0][0]
+        some = [(s_, t_) for s_, t_, cond, lab in edges if lab == 'Some' and s_ in blocks and cond[0] == 'discr' and cond[1][0] == 'call' and cond[1][1].endswith('::next') and len(cond[1]) > 3 and cond[1][3] == nb]
+        if not some:
+            continue
+        loc_loops.append(nb)
+        snd = [(sb, 'term') for sb in sends if sb in blocks]
+        dup = [(s_, t_) for s_, t_, cond, lab in edges if s_ in blocks and lab is True and cond[0] == 'call' and cond[1].endswith('::contains')]
+        if not snd:
+            bad.append('a walk over a locator list sends nothing')
+            continue
+        for s_, t_ in some:
+            if not P.every_path_passes((t_, 0), (nb, 'term'), via_pos=snd, via_edges=dup):
+                bad.append('a locator of the list is skipped although nothing was sent to it yet')
+        ins = [(ib, 'term') for ib, it in b.calls() if ib in blocks and callee_res(it).endswith('::insert')]
+        for sb, _ in snd:
+            if not ins or P.can_reach((sb, 'term'), (nb, 'term'), avoid_pos=ins):
+                bad.append('a locator sent to is not recorded in already_sent_to')
+    if len(loc_loops) < 2:
+        bad.append('only %d walks over locator lists' % len(loc_loops))
+    # every reader gets one of the walks unless it has no UDP locator of either kind
+    rd = None
+    for lp in loops:
+        blocks = lp[1]
+        if all(nb in blocks for nb in loc_loops) and loc_loops:
+            nxt = [(nb, nt) for nb, nt in b.calls() if nb in blocks and callee_res(nt).endswith('::next') and nb not in loc_loops and
+                   not term_has(og.of_operand(nt['args'][0], nb, 'term'), lambda x: x[0] == 'field' and x[1] in ('unicast_locator_list', 'multicast_locator_list'))]
+            if nxt and (rd is None or len(blocks) < len(rd[1])):
+                rd = (nxt[0][0], blocks)
+    if rd is None:
+        bad.append('no loop over the readers around the locator walks')
+    else:
+        rnb, blocks = rd
+        some = [(s_, t_) for s_, t_, cond, lab in edges if lab == 'Some' and s_ in blocks and cond[0] == 'discr' and cond[1][0] == 'call' and cond[1][1].endswith('::next') and len(cond[1]) > 3 and cond[1][3] == rnb]
+        for kind in ('unicast_locator_list', 'multicast_locator_list'):
+            none_k = [(s_, t_) for s_, t_, cond, lab in edges if lab == 'None' and cond[0] == 'discr' and term_has(cond, lambda x: x[0] == 'call' and x[1].endswith('::find')) and
+                      term_has(cond, lambda x: x[0] == 'field' and x[1] == kind)]
+            for s_, t_ in some:
+                if not P.every_path_passes((t_, 0), (rnb, 'term'), via_pos=[(nb, 'term') for nb in loc_loops], via_edges=none_k):
+                    bad.append('a reader with a UDP locator in its %s can be passed over' % kind)
+    rep.check(not bad, rid, 'send_message_to_readers/onto-the-wire', '%d walks over locator lists, each locator sent the serialised message once' % len(loc_loops),
+              'Writer::send_message_to_readers does not put the message on the wire for every reader (%s): whatever the Writer builds - DATA, HEARTBEAT, GAP - silently never leaves '
+              'the process' % '; '.join(sorted(set(bad))[:3]), b.where())
+
+
+def run_reader_wire(rep, fx, rid, pre=''):
+    """The same on the Reader's side: the ACKNACK / NACKFRAG message handed to send_*_to is the one that is serialised and sent to the locators handed in."""
+    R = 'rtps::reader::Reader::'
+    if not pre:
+        rep.rule(rid, 'the request onto the wire: send_acknack_to / send_nackfrags_to add the submessage created from the AckNack / NackFrags they were given (after the INFO_DST) to '
+                      'a message and hand it with their locator list to encode_and_send on every path; encode_and_send serialises that message (or its encoding) and hands the '
+                      'bytes with that locator list to UDPSender::send_to_locator_list on every path (security: on every path on which the encoding succeeded)')
+    for fn, pidx, what in (('send_acknack_to', 3, 'AckNack'), ('send_nackfrags_to', 3, 'NackFrag')):
+        b = fx.find(R + fn)
+        rep.analysed(b)
+        og = Origins(b, summaries=False)
+        P = Pos(b)
+        adds = [(bb, t) for bb, t in b.calls() if callee_res(t).endswith('Message::add_submessage')]
+        sub_ok = any(term_has(og.of_operand(t['args'][1], bb, 'term'), lambda x: x[0] == 'call' and x[1].endswith('create_submessage') and term_has(x, lambda y: y == ('param', pidx) or
+                     (y[0] in ('variant', 'call') and term_has(y, lambda z: z == ('param', pidx))))) for bb, t in adds)
+        snd = [(bb, 'term') for bb, t in b.calls() if callee_res(t).endswith('Reader::encode_and_send') and
+               term_has(og.of_operand(t['args'][1], bb, 'term'), lambda x: x[0] == 'call' and x[1].endswith('Message::new') or x[0] == 'mutated') and
+               _plainb(og.of_operand(t['args'][3], bb, 'term')) == ('param', 5)]
+        ok = sub_ok and bool(snd) and all(P.every_path_passes(None, (r, 'term'), via_pos=snd, from_entry=True) for r in b.return_blocks()) and \
+            all(P.can_reach((ab, 'term'), snd[0]) for ab, _ in adds)
+        rep.check(ok, rid, '%s%s/message-sent' % (pre, fn), 'submessage of the %s given => message => encode_and_send(message, .., the locators given)' % what,
+                  'Reader::%s does not put the %s it was given into the message it sends (or does not send it to the locators it was given) on every path: the request never leaves '
+                  'the process' % (fn, what), b.where())
+    e = fx.find(R + 'encode_and_send')
+    rep.analysed(e)
+    og = Origins(e, summaries=False)
+    P = Pos(e)
+    ser = [(bb, t) for bb, t in e.calls() if callee_res(t).endswith('write_to_vec_with_ctx')]
+    okm = bool(ser) and all(term_has(og.of_operand(t['args'][0], bb, 'term'), lambda x: x == ('param', 2) or (x[0] == 'call' and x[1].endswith('security_encode'))) for bb, t in ser)
+    snd = [(bb, 'term') for bb, t in e.calls() if callee_res(t).endswith('UDPSender::send_to_locator_list') and
+           term_has(og.of_operand(t['args'][1], bb, 'term'), lambda x: x[0] == 'call' and x[1].endswith('write_to_vec_with_ctx')) and _plainb(og.of_operand(t['args'][2], bb, 'term')) == ('param', 4)]
+    enc_fail = [(s_, t_) for s_, t_, cond, lab in switch_edges(e, fx, og) if lab == 'Err' and cond[0] == 'discr' and term_has(cond, lambda x: x[0] == 'call' and x[1].endswith('security_encode'))]
+    ok = okm and bool(snd) and all(P.every_path_passes(None, (r, 'term'), via_pos=snd, via_edges=enc_fail, from_entry=True) for r in e.return_blocks())
+    rep.check(ok, rid, '%sencode_and_send/onto-the-wire' % pre, 'bytes of the message => send_to_locator_list(bytes, the locators given)',
+              'Reader::encode_and_send does not serialise the message it was given and send the bytes to the locator list it was given on every path: no ACKNACK ever reaches a Writer',
+              e.where())
+
+
+def _plainb(t):
+    while isinstance(t, tuple) and t and t[0] in ('ref', 'deref', 'copy', 'move') and len(t) > 1 and isinstance(t[1], tuple):
+        t = t[1]
+    return t
